@@ -9,7 +9,8 @@
     kexpand <key33>                  -> <key65>             (mathKeys.expand33)
     ser <u|c> <txid> <height> <cb:0|1> <n> <k> (<idx> <value> <script>)*k   -> ok <bytes> <le> | nil
     dec <u|c> <bytes>                -> ok <txid> <height> <cb> <n> <k> (<idx> <value> <script>)*k | panic | hang
-    one <u|c> <bytes> <vout>         -> ok <value> <script> <height> <voutcount> <cb> | nil | panic | hang
+    one <u|c> <bytes|=> <vout>       ("=": the bytes of the last `dec` request)
+                                     -> ok <value> <script> <height> <voutcount> <cb> | nil | panic | hang
     snapw <c:0|1> <height> <hash> <k> <rec>*k      -> ok <file>
     snapr <file>                     -> ok <c> <height> <hash> <k> <rec>*k | err
 -/
@@ -93,31 +94,31 @@ partial def parseRecs (toks : List String) (acc : Array Bytes) : Option (List By
     | some b => parseRecs rest (acc.push b)
     | none => none
 
-def step (_ : Unit) (toks : List String) : Unit × String :=
-  let bad := ((), "bad-op")
+def step (last : Bytes) (toks : List String) : Bytes × String :=
+  let bad := (last, "bad-op")
   match toks with
   | ["camt", n] => match n.toNat? with
-    | some n => if n < AmountCompress.U64 then ((), s!"{AmountCompress.compress n} {AmountCompress.compressExact n}") else bad
+    | some n => if n < AmountCompress.U64 then (last, s!"{AmountCompress.compress n} {AmountCompress.compressExact n}") else bad
     | none => bad
   | ["damt", x] => match x.toNat? with
-    | some x => if x < AmountCompress.U64 then ((), s!"{AmountCompress.decompress x}") else bad
+    | some x => if x < AmountCompress.U64 then (last, s!"{AmountCompress.decompress x}") else bad
     | none => bad
   | ["cscr", s] => match unhex s with
     | some s => match ScriptCompress.compress K s with
-      | some c => ((), s!"ok {hex c}")
-      | none => ((), "nil")
+      | some c => (last, s!"ok {hex c}")
+      | none => (last, "nil")
     | none => bad
   | ["dscr", d] => match unhex d with
     | some d => match ScriptCompress.decompress K d with
-      | .ok s => ((), s!"ok {hex s}")
-      | .nil => ((), "nil")
-      | .panic => ((), "panic")
+      | .ok s => (last, s!"ok {hex s}")
+      | .nil => (last, "nil")
+      | .panic => (last, "panic")
     | none => bad
   | ["kvalid", k] => match unhex k with
-    | some k => if k.length == 65 then ((), Proto.boolStr (K.valid65 k)) else bad
+    | some k => if k.length == 65 then (last, Proto.boolStr (K.valid65 k)) else bad
     | none => bad
   | ["kexpand", k] => match unhex k with
-    | some k => if k.length == 33 then ((), hex (K.expand33 k)) else bad
+    | some k => if k.length == 33 then (last, hex (K.expand33 k)) else bad
     | none => bad
   | "ser" :: mode :: txid :: h :: cb :: n :: k :: rest =>
     match unhex txid, h.toNat?, bit cb, n.toNat?, k.toNat?, parseOuts rest #[] with
@@ -129,34 +130,34 @@ def step (_ : Unit) (toks : List String) : Unit × String :=
           let r : Rec := ⟨txid, h, cb, outs⟩
           let (res, le) := if mode == "u" then (serializeU r, sizeU r) else (serializeC K r, sizeC K r)
           match res with
-          | some b => ((), s!"ok {hex b} {le}")
-          | none => ((), "nil")
+          | some b => (last, s!"ok {hex b} {le}")
+          | none => (last, "nil")
     | _, _, _, _, _, _ => bad
   | ["dec", mode, b] => match unhex b with
     | some b =>
-      if mode == "u" then ((), showRes (newRecU b))
-      else if mode == "c" then ((), showRes (newRecC K b))
+      if mode == "u" then (b, showRes (newRecU b))
+      else if mode == "c" then (b, showRes (newRecC K b))
       else bad
     | none => bad
-  | ["one", mode, b, v] => match unhex b, v.toNat? with
+  | ["one", mode, b, v] => match (if b == "=" then some last else unhex b), v.toNat? with
     | some b, some v =>
       if v ≥ 2 ^ 32 then bad
-      else if mode == "u" then ((), showOne (oneU b v))
-      else if mode == "c" then ((), showOne (oneC K b v))
+      else if mode == "u" then (last, showOne (oneU b v))
+      else if mode == "c" then (last, showOne (oneC K b v))
       else bad
     | _, _ => bad
   | "snapw" :: c :: h :: hash :: k :: rest =>
     match bit c, h.toNat?, unhex hash, k.toNat?, parseRecs rest #[] with
     | some c, some h, some hash, some k, some recs =>
-      if recs.length ≠ k then bad else ((), s!"ok {hex (snapEncode ⟨c, h, hash, recs⟩)}")
+      if recs.length ≠ k then bad else (last, s!"ok {hex (snapEncode ⟨c, h, hash, recs⟩)}")
     | _, _, _, _, _ => bad
   | ["snapr", f] => match unhex f with
     | some f => match snapDecode f with
       | some s =>
         let rs := s.recs.foldl (fun acc r => acc ++ " " ++ hex r) ""
-        ((), s!"ok {Proto.boolStr s.compressed} {s.height} {hex s.hash} {s.recs.length}{rs}")
-      | none => ((), "err")
+        (last, s!"ok {Proto.boolStr s.compressed} {s.height} {hex s.hash} {s.recs.length}{rs}")
+      | none => (last, "err")
     | none => bad
   | _ => bad
 
-def main : IO Unit := Proto.serve () step
+def main : IO Unit := Proto.serve ([] : Bytes) step
